@@ -21,9 +21,12 @@
 #include "common.h"
 
 static void* vh_malloc(size_t n);
+static void vh_free(void* p);
 #define malloc(n) vh_malloc(n)
+#define free(p) vh_free(p)
 #include "work_stealing_deque.c"
 #undef malloc
+#undef free
 
 static int ngen;
 
@@ -38,6 +41,17 @@ static void* vh_malloc(size_t n) {
     for (size_t i = 0; i < slots; i++) vr_reg(&a->data[i].data, 8, "a%d_%zu", g, i);
   }
   return p;
+}
+
+/* The algorithm relies on retired array generations outliving slow thieves (the code keeps
+ * them on the `prev` chain until the deque is destroyed).  A generation released while the
+ * deque is in use is poisoned and reported; the memory itself is kept so that a late reader
+ * sees the poison instead of crashing somewhere unrelated. */
+__attribute__((no_sanitize_thread)) static void vh_free(void* p) {
+  if (!p) return;
+  wsd_circular_array_t* a = (wsd_circular_array_t*)p;
+  vr_note("ORACLE array-freed-in-use %p size %zu", p, a->size);
+  for (size_t i = 0; i < a->size; i++) a->data[i].data = (void*)0x5a5a5a5aL;
 }
 
 static wsd_work_stealing_deque_t* d;
@@ -70,13 +84,16 @@ int main(int argc, char** argv) {
   int k = atoi(argv[1]);
   vh_parse(argv[2]);
   d = (wsd_work_stealing_deque_t*)calloc(1, sizeof *d);
-  d->top = 0;
-  d->bottom = 0;
+  /* optional start index (multiple of every array size): a run queue that has already seen
+   * that many fibers; crosses the 2^31 / 2^32 boundaries of the monotone indices */
+  long long base = argc > 3 ? atoll(argv[3]) : 0;
+  d->top = base;
+  d->bottom = base;
   d->underlying_array = wsd_circular_array_create(k);
   vr_reg(&d->top, 8, "top");
   vr_reg(&d->bottom, 8, "bottom");
   vr_reg(&d->underlying_array, 8, "underlying_array");
-  vr_note("init wsd %d", k);
+  vr_note("init wsd %d %lld", k, base);
   vh_run(do_op);
   /* drain single-threaded by the owner so "lost item" is decidable */
   for (;;) {
